@@ -1155,8 +1155,9 @@ func (w *vWorld) op(ws []string) (string, bool) {
 	}
 	frames := w.drainSessions()
 	pushes := w.drainUsersUpdate()
-	if ws[0] == "drop" {
-		// unsubAll walks a map: the order in which the topics learn about it is not defined
+	if ws[0] == "drop" || ws[0] == "fg" {
+		// unsubAll and the background timer walk the session's map of subscriptions: the order in which the topics learn about
+		// it is not defined
 		sort.Strings(frames)
 	}
 	parts := []string{}
